@@ -82,7 +82,7 @@ claim("C14", "Lean 4 theorems (complete characterisation of the scan loop for an
       "Proved for the model: scan = the first non-rejected offset among 0..min(len-2,255) (scan_spec / scan_eq_scanRef); hence (1) up to 255 bytes of noise every offset of which is rejected, then a frame, yields exactly that frame "
       "with start = noise length, with a bytes-only sufficient condition per transport (…_resync); (2) no frame is ever reported after an offset that is not rejected (…_no_later, …_not_after); "
       "(3) 256 rejected offsets in a buffer of >= 257 bytes give an error, not 'incomplete' (…_gives_up), while <= 256 bytes of garbage give 'incomplete' by design (Props/C14.lean); "
-      "C14Full.lean: the same through the ADU decoders for every built value; C14Recv.lean: the receive loop drops exactly the noise and keeps the stream position; "
+      "C14Full.lean: clauses 1 and 2 for every well-formed frame at the four scanners (composition with C10); C14Recv.lean: the receive loop drops exactly the noise and keeps the stream position; "
       "after fix a69a03c: tcp_attempt_rejects_bad_protocol / _bad_length and the bytes-only tcp_*_resync_stray (no two zero bytes at a noise offset's protocol-id position).",
       "Clause 3 is read with the buffer-length premise (>= 257 bytes): short garbage yields 'incomplete' by design and a unit test of the crate asserts it. RTU-request offsets whose function-code byte is 0x0F/0x10 are open finding D4.")
 
@@ -97,20 +97,20 @@ claim("C02", "Lean 4 theorems (decoder on each layout, padTo8 algebra, byte-wise
       "Proved for the model, for every response built through the public constructors: encode returns exactly pdu_len and decoding gives the same kind with identical fields and register words; coil payloads come back with identical leading coils, "
       "count 8*ceil(n/8), padding off (rsp_roundtrip, rsp_roundtrip_coils); custom responses with any unmodelled code keep code byte and data; every exception (all f < 0x80, all nine codes, both FunctionCode constructions) "
       "encodes to two bytes and decodes back to the same function value and exception (exc_roundtrip); read-exception-status comes back as itself (rsp_read_exception_status_roundtrip, fix c4ddc91); "
-      "ANY backed coil container, however obtained, comes back with identical leading coils and padding off (rsp_roundtrip_coils_any, fix 30346fb); rsp_roundtrip_exact / rsp_roundtrip_exact_coils_iff say when the identical value returns (Props/C02.lean).",
+      "ANY backed coil container of at most 2040 coils, however obtained, comes back with identical leading coils and padding off (rsp_roundtrip_coils_any, fix 30346fb); rsp_roundtrip_exact / rsp_roundtrip_exact_coils_iff say when the identical value returns (Props/C02.lean).",
       "Response::WriteSingleCoil round-trips in the crate's own three-byte form (its non-conformance to the specification is C03's open finding D12).")
 
 claim("C03", "Lean 4 theorems against an independent statement of the wire layouts (Spec/Wire.lean, Spec/Bits.lean) + differential correspondence + reference-encoder oracle",
       "Proved for the model: the image of every built request equals the specification's bytes (function code, big-endian fields, byte count = payload length, LSB-first coil packing with zero padding, FF00/0000) and every "
       "in-scope specification PDU decodes to the meaning the specification assigns (req_conforms, req_decodes_spec; Props/C03Req.lean); the same for responses and exception responses as ..._partial excluding exactly "
       "Response::WriteSingleCoil, whose three-byte image is proved different from the five-byte echo for every address (rsp_conforms_partial, rsp_write_single_coil_defect, exc_conforms, rsp_decodes_spec; Props/C03Rsp.lean); "
-      "req_conforms_any / rsp_conforms_any_partial extend conformance from constructor-built values to EVERY well-formed value (containers taken from decoded PDUs included: padding is zero on the wire whatever the container holds).",
+      "req_conforms_any / rsp_conforms_any_partial extend conformance from constructor-built values to EVERY well-formed value of an implemented kind whose count fits one byte (containers taken from decoded PDUs included: padding is zero on the wire whatever the container holds).",
       "Open finding D12 (WriteSingleCoil response is 3 bytes) is pinned by three unedited unit tests; see KNOWN_FINDINGS.txt. Spec/*.lean is trusted as a transcription of the Modbus Application Protocol v1.1b3.")
 
 claim("C04", "Lean 4 theorems composing the ADU encoder equation, the reception theorems (C10) and the PDU decoders + differential correspondence over all 256 slave ids + round-trip oracle",
       "Proved for the model, for every slave id: the encoded frame is slave id, PDU, be16(crc16) of those bytes, length PDU+3 (rtu_req_layout, rtu_rsp_layout); handing that frame (also followed by further bytes) to the opposite decoder returns the same "
       "slave id and the PDU decoder's value; exception responses (functions 1..0x2B, nine codes) come back as exceptions (rtu_exception_roundtrip); requests as ..._partial excluding 0x0F/0x10 (open finding D4) and responses excluding "
-      "WriteSingleCoil (open finding D12), each with defect witnesses and refutations of the full statement (Props/C04.lean); hypothesis-free end-to-end forms for every built value in C04Full.lean, the inverse direction (decode then re-encode) in C04Dec.lean.",
+      "WriteSingleCoil (open finding D12), each with defect witnesses and refutations of the full statement (Props/C04.lean); end-to-end forms free of the PDU-round-trip hypothesis, for every built value that fits, is in scope and is frameable, in C04Full.lean, the inverse direction (decode then re-encode) in C04Dec.lean.",
       "For the variable-payload kinds the PDU-level round trip enters as a hypothesis that C01/C02 discharge (C01.req_roundtrip, C02.rsp_roundtrip); fixed-layout kinds and exceptions are hypothesis-free. That crc16 is CRC-16/MODBUS with the low byte first is C06. "
       "Open finding D19: the one-byte requests 07/0B/0C/11 are framed by rtu::request_pdu_len but cannot be encoded (todo!()); C04Wf.lean extends the round trip from constructor-built values to every well-formed value.")
 
@@ -118,8 +118,8 @@ claim("C05", "Lean 4 theorems composing the ADU encoder equation, the reception 
       "Proved for the model, for every transaction id and unit id: the encoded ADU is tid (big-endian), protocol id 0, length = PDU+1, unit id, PDU, total PDU+7 (tcp_req_layout, tcp_rsp_layout, tcp_frame_fields); decoding it "
       "(also followed by further bytes) returns the same tid, uid and the PDU decoder's value; an exception response (functions 1..0x2B) is returned as an exception, never as a success (tcp_exception_roundtrip, tcp_exception_never_success); "
       "responses as ..._partial excluding WriteSingleCoil (open finding D12, witness); a PDU of more than 65534 bytes is refused and the length field never wraps, for every value and buffer (tcp_length_field_never_wraps) "
-      "(Props/C05.lean); the hypothesis-free end-to-end forms for every built value are in C05Full.lean, and the inverse direction (every frame a decoder accepts re-encodes to the same frame, up to normalisation) in C05Dec.lean.",
-      "Exception frames for function 0 or 0x2C..0x7F are not frameable by the length table: proved to yield 'incomplete', never a success. Variable-payload kinds: PDU-level round trip is the hypothesis discharged by C01/C02.")
+      "(Props/C05.lean); the end-to-end forms free of the PDU-round-trip hypothesis (every built value that fits, is in scope and is frameable) are in C05Full.lean, and the inverse direction (every frame a decoder accepts re-encodes to the same frame, up to normalisation) in C05Dec.lean.",
+      "Exception frames for function 0 or 0x2C..0x7F are not frameable by the length table: the lone frame is proved to yield 'incomplete', never a success; followed by further bytes nothing is reported at its offset. Variable-payload kinds: PDU-level round trip is the hypothesis discharged by C01/C02.")
 
 claim("C13", "Lean 4 theorems (inversion of the decoders, coherence of the decoded containers, exact characterisation of the defect region) + differential correspondence on corrupted count fields + usage oracle",
       "Proved for the model: EVERY value Response.decode returns is coherent (len; get returns an item below len and nothing at or above it for every index value; iteration yields len items; pdu_len and encode never panic; "
